@@ -616,6 +616,45 @@ pub fn special_programs() -> Vec<(&'static str, Prog, &'static str, bool)> {
         "<3><2><1><0>",
         true,
     ));
+    // the run ends where the code ends, whichever frame is active then: the last method of the file is a callee whose
+    // last instruction is a print (no return), reached through two calls
+    v.push((
+        "code-ends-inside-a-callee",
+        Prog {
+            consts: vec![
+                s("main"),
+                s("outer"),
+                s("inner"),
+                s("A"),
+                s("B"),
+                s("C"),
+                Const::Method { name: 0, arity: 0, locals: 0, code: vec![Ins::Print(3, 0), Ins::Drop, Ins::Call(1, 0), Ins::Drop, Ins::Print(3, 0)] },
+                Const::Method { name: 1, arity: 0, locals: 0, code: vec![Ins::Print(4, 0), Ins::Drop, Ins::Call(2, 0), Ins::Return] },
+                Const::Method { name: 2, arity: 0, locals: 0, code: vec![Ins::Print(5, 0)] },
+            ],
+            globals: vec![7, 8],
+            entry: 6,
+        },
+        "ABC",
+        true,
+    ));
+    // an entry method without instructions finishes at once, wherever it stands in the file
+    v.push((
+        "empty-entry-before-other-methods",
+        Prog {
+            consts: vec![
+                s("main"),
+                s("later"),
+                s("X"),
+                Const::Method { name: 0, arity: 0, locals: 0, code: vec![] },
+                Const::Method { name: 1, arity: 0, locals: 1, code: vec![Ins::Print(2, 0), Ins::SetLocal(0), Ins::Return] },
+            ],
+            globals: vec![4],
+            entry: 3,
+        },
+        "",
+        true,
+    ));
     // return pops the frame and nothing else: a callee may leave several values (or none of its own) for its caller
     v.push((
         "return-leaves-the-operand-stack-alone",
